@@ -5,4 +5,5 @@ WORLDS = {
     "uni(q0)": lambda: catalog.uni_world("q0"),
     "uni(q1)": lambda: catalog.uni_world("q1"),
     "uni(xq)": lambda: catalog.uni_xq_world(),
+    "aave": lambda: catalog.aave_world(),
 }
